@@ -12,8 +12,12 @@ package badger
 
 import (
 	"fmt"
+	"os"
 	"runtime"
 	"sort"
+	"strings"
+	"testing/synctest"
+	"time"
 
 	"github.com/dgraph-io/badger/v4/options"
 	"github.com/dgraph-io/badger/v4/pb"
@@ -426,4 +430,141 @@ func c26Run(e *enumCtx, content []c26KV, split, mode, batching, interleave, done
 		}
 	}
 	return "", ""
+}
+
+// c26inc (E-enum, inside a bubble): PrepareIncremental on a database that has real compactors and
+// data in level 0 and / or the last level (with level 0 populated the writer flattens the tree first).
+// While the stream writer adds tables the compactors must be stopped, afterwards exactly one set of
+// compactors runs, and after Close none: ten virtual minutes after Close no compactor goroutine may be
+// left (a left-over compactor reads tables that Close has unmapped).
+func init() {
+	registerEnum("c26inc", func(e *enumCtx) {
+		for _, layout := range []string{"empty", "last", "l0+last", "l0"} {
+			for _, compactors := range []int{2, 4} {
+				layout, compactors := layout, compactors
+				e.do(fmt.Sprintf("%s/compactors%d", layout, compactors), func() (c, d string) {
+					inBubble(e.t, func() {
+						dir := freshDir(e.j)
+						defer removeAll(dir)
+						o := smallOpts(dir)
+						o.NumCompactors = compactors
+						o.NumLevelZeroTables, o.NumLevelZeroTablesStall = 2, 4
+						db := mustOpen(o)
+						closed := false
+						defer func() {
+							if !closed {
+								_ = db.Close()
+							}
+							if c != "" {
+								bubbleLeakOK = true // the finding stands; whatever goroutines it left behind stay in the dead bubble
+							}
+						}()
+						put := func(k string) {
+							if err := db.Update(func(txn *Txn) error { return txn.Set([]byte(k), val(k+"|", 80)) }); err != nil {
+								panic(err)
+							}
+						}
+						want := map[string]bool{}
+						var trace []string
+						note := func(what string) {
+							synctest.Wait()
+							buf := make([]byte, 4<<20)
+							trace = append(trace, fmt.Sprintf("%s:%d", what, strings.Count(string(buf[:runtime.Stack(buf, true)]), "levelsController).runCompactor(")))
+						}
+						note("open")
+						if layout == "last" || layout == "l0+last" {
+							for i := 0; i < 20; i++ {
+								k := fmt.Sprintf("a%03d", i)
+								put(k)
+								want[k] = true
+							}
+							lsmFlush(db)
+							note("flushed")
+							runOnceAs(db, 0) // level 0 -> last level
+							if err := db.Flatten(1); err != nil {
+								c, d = "c26-setup", err.Error()
+								return
+							}
+							note("flattened")
+						}
+						if layout == "l0" || layout == "l0+last" {
+							put("b001")
+							want["b001"] = true
+							lsmFlush(db)
+						}
+						synctest.Wait()
+						running := func() int {
+							buf := make([]byte, 4<<20)
+							return strings.Count(string(buf[:runtime.Stack(buf, true)]), "levelsController).runCompactor(")
+						}
+						sw := db.NewStreamWriter()
+						if err := sw.PrepareIncremental(); err != nil {
+							c, d = "streamwriter-prepare", err.Error()
+							return
+						}
+						synctest.Wait()
+						if f := os.Getenv("VERIF_DEBUG_STACKS"); f != "" {
+							buf := make([]byte, 4<<20)
+							_ = os.WriteFile(f+".prep", buf[:runtime.Stack(buf, true)], 0o644)
+						}
+						if n := running(); n != 0 {
+							c, d = "streamwriter-compactors-running", fmt.Sprintf("layout %s: %d compactor goroutines are running after PrepareIncremental returned (the stream writer adds unsorted tables to a level: nobody else may touch the levels until Flush); compactor goroutines so far: %v", layout, n, trace)
+							sw.Cancel()
+							return
+						}
+						buf := z.NewBuffer(1<<10, "c26inc")
+						for i := 0; i < 10; i++ {
+							k := fmt.Sprintf("c%03d", i)
+							KVToBuffer(&pb.KV{Key: []byte(k), Value: []byte("streamed"), Version: 1000, StreamId: 1}, buf)
+							want[k] = true
+						}
+						err := sw.Write(buf)
+						_ = buf.Release()
+						if err != nil {
+							sw.Cancel()
+							c, d = "streamwriter-write", err.Error()
+							return
+						}
+						if err := sw.Flush(); err != nil {
+							c, d = "streamwriter-flush", err.Error()
+							return
+						}
+						synctest.Wait()
+						if n := running(); n != compactors {
+							c, d = "streamwriter-compactors-after-flush", fmt.Sprintf("layout %s: %d compactor goroutines run after Flush, the database is configured with %d", layout, n, compactors)
+							return
+						}
+						got := map[string]bool{}
+						_ = db.View(func(txn *Txn) error {
+							it := txn.NewIterator(DefaultIteratorOptions)
+							defer it.Close()
+							for it.Rewind(); it.Valid(); it.Next() {
+								got[string(it.Item().Key())] = true
+							}
+							return nil
+						})
+						if fmt.Sprint(len(got)) != fmt.Sprint(len(want)) {
+							c, d = "streamwriter-content", fmt.Sprintf("layout %s: %d keys after Flush, want %d", layout, len(got), len(want))
+							return
+						}
+						closed = true
+						if err := db.Close(); err != nil {
+							c, d = "streamwriter-close", err.Error()
+							return
+						}
+						time.Sleep(10 * time.Minute)
+						if os.Getenv("VERIF_DEBUG_STACKS") != "" {
+							buf := make([]byte, 4<<20)
+							_ = os.WriteFile(os.Getenv("VERIF_DEBUG_STACKS"), buf[:runtime.Stack(buf, true)], 0o644)
+						}
+						if n := running(); n != 0 {
+							c, d = "compactors-running-after-close", fmt.Sprintf("layout %s: %d compactor goroutines are still running ten minutes after Close returned", layout, n)
+							bubbleLeakOK = true
+						}
+					})
+					return
+				})
+			}
+		}
+	})
 }
